@@ -162,9 +162,14 @@ impl CompiledProgram {
             .is_consistent(&self.witness_types)
             .map_err(|e| e.to_string())?;
         let simplicity_witness = named::to_witness_node(&self.simplicity, witness_values);
+        let simplicity_redeem = named::finalize_unpruned(&simplicity_witness);
         let simplicity_redeem = match env {
-            Some(env) => simplicity_witness.finalize_pruned(env),
-            None => simplicity_witness.finalize_unpruned(),
+            Some(env) => simplicity_redeem.and_then(|unpruned| {
+                unpruned
+                    .prune(env)
+                    .map_err(simplicity::Error::Execution)
+            }),
+            None => simplicity_redeem,
         };
         Ok(SatisfiedProgram {
             simplicity: simplicity_redeem.map_err(|e| e.to_string())?,
